@@ -121,7 +121,10 @@ fn emit_path(sc: &Scenario, pathno: usize, status: &str, msg: &str) -> (Vec<Stri
             write!(o, "\"logic\":{},\"decls\":{},\"defs\":{},", jstr(logic), jstr(&decls), jstr(&em.defs)).unwrap();
             let js = |v: &Vec<String>| jlist(&v.iter().map(|s| jstr(s)).collect::<Vec<_>>());
             write!(o, "\"ax\":{},\"def\":{},\"pre\":{},\"pi\":{},", js(&ax), js(&defs), js(&pre), js(&pi)).unwrap();
-            let gs: Vec<String> = goals.iter().map(|(n, kind, s, hy)| format!("{{\"name\":{},\"kind\":{},\"smt\":{},\"hyps\":{}}}", jstr(n), jstr(kind), jstr(s), js(hy))).collect();
+            let gs: Vec<String> = goals.iter().map(|(n, kind, s, hy)| {
+                let needs: Vec<String> = e.lemma_deps.iter().filter(|(g, ln)| n.starts_with(g.as_str()) && ln != n).map(|(_, ln)| ln.clone()).collect();
+                format!("{{\"name\":{},\"kind\":{},\"smt\":{},\"hyps\":{},\"needs\":{}}}", jstr(n), jstr(kind), jstr(s), js(hy), js(&needs))
+            }).collect();
             write!(o, "\"goals\":{},\"inputs\":{},\"trig\":{},\"notes\":{}}}", jlist(&gs), js(&em.vars), jlist(&trig), js(&e.notes)).unwrap();
             ngoals += goals.len();
             outs.push(o);
